@@ -1,8 +1,8 @@
 SPECIFICATION Spec
 CONSTANTS
   SharedField = "none"
-  NReqs = 2
-  MaxSwitches = 3
-  Mode = "good"
+  NReqs = 1
+  MaxSwitches = 0
+  Mode = "solo"
 POSTCONDITION Written
 CHECK_DEADLOCK FALSE
